@@ -98,6 +98,16 @@ def run(ck):
                 ck.count("dest:" + kind)
                 ck.count("n=%d" % n if n < 8 else "n>=8")
                 ck.count("extra_dims=%d" % len(params))
+                if params and ck.rng.random() < 0.4:
+                    # the VLR list re-assigned as a whole (from another list object): the description of the extra
+                    # dimensions must still reach the file
+                    ck.count("vlrs_reassigned_with_extra_dims")
+                    inp["vlrs_reassigned"] = True
+                    from laspy.vlrs.vlrlist import VLRList
+                    if ck.rng.random() < 0.5:
+                        las.vlrs = VLRList(v for v in las.vlrs if type(v).__name__ != "ExtraBytesVlr")
+                    else:
+                        las.header.vlrs = list(las.vlrs)
                 before = fio.snapshot(las)
                 try:
                     data = write_to(las, kind, tmpdir)
@@ -122,6 +132,18 @@ def run(ck):
                 if [str(d.dtype) for d in back.point_format.extra_dimensions] != [str(d.dtype) for d in las.point_format.extra_dimensions] or \
                         list(back.point_format.extra_dimension_names) != list(las.point_format.extra_dimension_names):
                     ck.fail("extra dimensions changed", inp)
+                # read back in pieces that are all kept until the end (equal-sized pieces, a short last one)
+                if n >= 2:
+                    kk = ck.rng.choice([1, 2, 3, max(1, n // 3)])
+                    try:
+                        src = io.BytesIO(data) if kind == "bytesio" else _spill(tmpdir, data)
+                        with laspy.open(src) as rd:
+                            pieces = [c for c in rd.chunk_iterator(kk)]
+                        joined = b"".join(c.array.tobytes() for c in pieces)
+                        if joined != raw:
+                            ck.fail(f"point records read back in pieces of {kk} (all kept, then joined) are not byte-identical to what was written", dict(inp, pieces=kk))
+                    except Exception as e:
+                        ck.fail(f"reading the written file in pieces raised {type(e).__name__}: {e}", inp)
                 buf2 = io.BytesIO()
                 back.write(buf2)
                 if buf2.getvalue() != data:
